@@ -32,7 +32,7 @@ REQUIRED_HOOKS = [
     "BeckeRTransform.transform_1d_grid", "InverseRTransform.transform", "BeckeRTransform.find_parameter",
 ]
 REQUIRED_FAMILIES = ["api-aliasing", "ode-callbacks", "poisson", "transforms"]
-BUDGET = {"quick": 420, "thorough": 3600}
+BUDGET = {"quick": 1200, "thorough": 4800}
 MODES = ("fresh", "readonly", "view", "alias")
 RULE = (
     "Generic byte-snapshot monitor on every public callable of every grid module (183 wrapped; blake2b of bytes+dtype+shape+writeable flag of every "
